@@ -355,6 +355,18 @@ theorem c10_pratt_kind_invariant (env : Env) (hs : env.kind = .slice) (k : InKin
     runPratt fuel env' m atom ops (st.mapSp env'.rebase) = (runPratt fuel env m atom ops st).mapSp env'.rebase :=
   runPratt_kindSim env hs k ts e hd fuel m atom hatom ops hops st
 
+/-- … and for recursive expression grammars `recursive(|e| atom.pratt(ops))`, at every grammar position -/
+theorem c10_recursive_pratt_kind_invariant (x : XEnv) (env : Env) (hs : env.kind = .slice) (k : InKind)
+    (ts : List (Nat × Nat)) (e : Nat × Nat) (hd : constOkL env.defs = true) (hatom : x.atom.constOk = true)
+    (hops : ∀ o ∈ x.ops, (match o with | .infix _ _ g => g | .prefix _ g => g | .postfix _ g => g).constOk = true)
+    (n : Nat) (m : Mode) (g : G) (hg : g.constOk = true) (st : St) :
+    let env' : Env := { env with kind := k, tspans := ts, eoi := e }
+    runX x n env' m g (st.mapSp env'.rebase) = (runX x n env m g st).mapSp env'.rebase := by
+  intro env'
+  have := (runX_kind_all x (kindRel_of_slice env hs k ts e hd) hatom hops n).1 m g st
+  rwa [G.mapConst_of_constOk _ g hg] at this
+
+#print axioms c10_recursive_pratt_kind_invariant
 #print axioms c10_pratt_kind_invariant
 #print axioms replay_agrees
 #print axioms replay_locs
